@@ -44,10 +44,12 @@ PAYLOAD_TAG = "PAYLOAD"
 EVAL_SRC = "__import__('verif_sink').sink('PAYLOAD')"
 EXEC_SRC = "import verif_sink\nverif_sink.sink('PAYLOAD')"
 FN_SRC = (
-    "def verif_fn(obj, *extra):\n"
+    # the annotation is an expression: the function that runs must be the one this text defines
+    # in a plain module (annotations evaluated), whether it travels as text or precompiled
+    "def verif_fn(obj, *extra, _w: 'wrap' + 'ped' = None):\n"
     "    import verif_sink\n"
     "    verif_sink.sink('PAYLOAD', *extra)\n"
-    "    return ('wrapped', obj)"
+    "    return (verif_fn.__annotations__['_w'], obj)"
 )
 
 MODES = []
@@ -72,7 +74,9 @@ LOADERS = ("c", "py")
 
 ARG2 = [7]  # second payload argument; varied per injection by run_shard
 ARG_SEQUENCE = (7, 8.0, "7", 7.0, 8, b"7", 10.0, 10, 11, 11.0, "8.0", 2**40, float(2**40), 12.0, 12,
-                b"z" * 300, [1, "a"], {"k": 2}, b"y" * 255, [], [[1], {"n": [2]}], "\u00e9" * 200)
+                b"z" * 300, [1, "a"], {"k": 2}, b"y" * 255, [], [[1], {"n": [2]}], "\u00e9" * 200,
+                # dicts are ordered: the callee must see the caller's insertion order
+                {"zeta": 1, "alpha": 2}, {10: "x", 9: "y", "a": [{"b": 1, "a": 2}]})
 _ARG_CYCLE = [0]
 
 
